@@ -159,7 +159,10 @@ func emitCut(id string, content []byte, cut int, signal string, ends string, kin
 	switch signal {
 	case "fail":
 		final = "fail:7"
-		sched = []schedStep{{len(content) + 1, false}}
+		// (one step per buffer-full, and one more: the failure must come on a Read of its own, after the last data)
+		for j := 0; j < cut/16384+2; j++ {
+			sched = append(sched, schedStep{len(content) + 1, false})
+		}
 	case "faild":
 		final = "fail:7"
 	case "zeros": // plain end of stream after a delivery with many zero-length reads (never 100 in a row)
@@ -304,6 +307,10 @@ func opCut(r *rand.Rand, n int, tier string) {
 				if cut <= len(content) {
 					sg := []string{"eof", "fail", "faild", "chunkd", "chunke"}[r.Intn(5)]
 					emitCut(fmt.Sprintf("cut-%d-%d-%s", i, cut, sg), content, cut, sg, strings.Join(es, ","), kind)
+					if cut%16384 == 0 && sg != "fail" {
+						// the end of the stream / the failure reported by a Read of its own, after exactly k buffers of one line
+						emitCut(fmt.Sprintf("cut-%d-%d-%s", i, cut, "fail"), content, cut, "fail", strings.Join(es, ","), kind)
+					}
 				}
 			}
 		}
